@@ -1,4 +1,5 @@
 import Mathlib.Algebra.Order.Field.Basic
+import Mathlib.Tactic.Linarith
 import TapkeeVerif.Proofs.KnnVpSearch
 import TapkeeVerif.Model.Tsne
 /-!
@@ -36,11 +37,13 @@ theorem heapTop_eq : ∀ h : Heap K, heapTop h = VpTree.maxDist h
   | [] => rfl
   | x :: t => by
     simp only [heapTop, VpTree.maxDist, heapTop_eq t]
+    cases VpTree.maxDist t <;> rfl
 
 theorem heapPop_eq : ∀ h : Heap K, heapPop h = VpTree.popMaxFirst h
   | [] => rfl
   | x :: t => by
     simp only [heapPop, VpTree.popMaxFirst, heapTop_eq t, heapPop_eq t]
+    cases VpTree.maxDist t <;> rfl
 
 /-- heap distances and `tau` are non-negative -/
 def NonNeg (s : SearchState K) : Prop := (∀ e ∈ s.heap, 0 ≤ e.2) ∧ ∀ t, s.tau = some t → 0 ≤ t
@@ -79,67 +82,50 @@ theorem heapPop_sub : ∀ (h : Heap K) (e : Nat × K), e ∈ heapPop h → e ∈
 /-- the admission block of `search` (shared by both classes) -/
 def admit (k idx : Nat) (dist : K) (s : SearchState K) : SearchState K :=
   if (match s.tau with | none => true | some t => decide (dist < t)) then
-    let h1 := if s.heap.length = k then heapPop s.heap else s.heap
-    let h2 := (idx, dist) :: h1
-    ⟨if h2.length = k then heapTop h2 else s.tau, h2⟩
+    ⟨if ((idx, dist) :: (if s.heap.length = k then heapPop s.heap else s.heap)).length = k then
+        heapTop ((idx, dist) :: (if s.heap.length = k then heapPop s.heap else s.heap)) else s.tau,
+      (idx, dist) :: (if s.heap.length = k then heapPop s.heap else s.heap)⟩
   else s
 
 theorem admit_nonneg (k idx : Nat) (dist : K) (hd : 0 ≤ dist) (s : SearchState K) (hs : NonNeg s) :
     NonNeg (admit k idx dist s) := by
   unfold admit
-  split_ifs with h1 h2 h3 h4
-  · refine ⟨?_, ?_⟩
-    · intro e he
+  by_cases hc : (match s.tau with | none => true | some t => decide (dist < t)) = true
+  · rw [if_pos hc]
+    have hh : ∀ e ∈ ((idx, dist) :: (if s.heap.length = k then heapPop s.heap else s.heap)), 0 ≤ e.2 := by
+      intro e he
       simp only [List.mem_cons] at he
       rcases he with rfl | he
       · exact hd
-      · exact hs.1 e (heapPop_sub _ _ he)
-    · intro t ht
+      · split_ifs at he with hl
+        · exact hs.1 e (heapPop_sub _ _ he)
+        · exact hs.1 e he
+    refine ⟨hh, ?_⟩
+    intro t ht
+    simp only at ht
+    by_cases hl2 : ((idx, dist) :: (if s.heap.length = k then heapPop s.heap else s.heap)).length = k
+    · rw [if_pos hl2] at ht
       obtain ⟨e, he, hem⟩ := heapTop_mem _ t ht
-      simp only [List.mem_cons] at he
-      rcases he with rfl | he
-      · exact hem ▸ hd
-      · exact hem ▸ hs.1 e (heapPop_sub _ _ he)
-  · refine ⟨?_, hs.2⟩
-    intro e he
-    simp only [List.mem_cons] at he
-    rcases he with rfl | he
-    · exact hd
-    · exact hs.1 e (heapPop_sub _ _ he)
-  · refine ⟨?_, ?_⟩
-    · intro e he
-      simp only [List.mem_cons] at he
-      rcases he with rfl | he
-      · exact hd
-      · exact hs.1 e he
-    · intro t ht
-      obtain ⟨e, he, hem⟩ := heapTop_mem _ t ht
-      simp only [List.mem_cons] at he
-      rcases he with rfl | he
-      · exact hem ▸ hd
-      · exact hem ▸ hs.1 e he
-  · refine ⟨?_, hs.2⟩
-    intro e he
-    simp only [List.mem_cons] at he
-    rcases he with rfl | he
-    · exact hd
-    · exact hs.1 e he
-  · exact hs
+      exact hem ▸ hh e he
+    · rw [if_neg hl2] at ht
+      exact hs.2 t ht
+  · rw [if_neg hc]; exact hs
 
-theorem admit_eq (cb : VpTree.Cb Nat K) (k idx : Nat) (dist : K) (s : SearchState K) :
+theorem admit_eq (k idx : Nat) (dist : K) (s : SearchState K) :
     toS (admit k idx dist s) = VpTree.admission VpTree.popMaxFirst k idx dist (toS s) := by
+  obtain ⟨tau, heap⟩ := s
   unfold admit VpTree.admission toS VpTree.ltTau
-  cases hτ : s.tau with
+  cases tau with
   | none =>
     simp only [if_true]
-    by_cases hl : s.heap.length = k
+    by_cases hl : heap.length = k
     · simp only [hl, if_true, heapPop_eq, heapTop_eq]
     · simp only [hl, if_false, heapTop_eq]
   | some t =>
     simp only
     by_cases hd : dist < t
     · simp only [hd, decide_true, if_true]
-      by_cases hl : s.heap.length = k
+      by_cases hl : heap.length = k
       · simp only [hl, if_true, heapPop_eq, heapTop_eq]
       · simp only [hl, if_false, heapTop_eq]
     · simp only [hd, decide_false, Bool.false_eq_true, if_false]
@@ -159,7 +145,8 @@ theorem vpSearch_node (distf : List K → List K → K) (items : Nat → List K)
          let s2 := vpSearch distf items target k r s1
          if (match s2.tau with | none => true | some t => decide (dist - t ≤ thr)) then
            vpSearch distf items target k l s2 else s2) := by
-  simp only [vpSearch, admit]
+  unfold admit
+  rfl
 
 theorem vpSearch_nonneg (distf : List K → List K → K) (hd : ∀ a b, 0 ≤ distf a b) (items : Nat → List K)
     (target : List K) (k : Nat) : ∀ (t : VpNode K) (s : SearchState K), NonNeg s →
@@ -179,6 +166,32 @@ theorem vpSearch_nonneg (distf : List K → List K → K) (hd : ∀ a b, 0 ≤ d
     · exact ihl _ (ihr _ h1)
     · exact ihr _ h1
 
+theorem leftTest_true_of (d thr : K) (τ : Option K) (hlt : d < thr) (h : ∀ t, τ = some t → 0 ≤ t) :
+    VpTree.leftTest d thr τ = true := by
+  cases τ with
+  | none => rfl
+  | some t =>
+    have := h t rfl
+    simp only [VpTree.leftTest, decide_eq_true_eq]
+    linarith
+
+theorem rightTest_true_of (d thr : K) (τ : Option K) (hge : thr ≤ d) (h : ∀ t, τ = some t → 0 ≤ t) :
+    VpTree.rightTest d thr τ = true := by
+  cases τ with
+  | none => rfl
+  | some t =>
+    have := h t rfl
+    simp only [VpTree.rightTest, decide_eq_true_eq]
+    linarith
+
+theorem rightTest_eq (d thr : K) (τ : Option K) :
+    VpTree.rightTest d thr τ = (match τ with | none => true | some t => decide (thr ≤ d + t)) := by
+  cases τ <;> rfl
+
+theorem leftTest_eq (d thr : K) (τ : Option K) :
+    VpTree.leftTest d thr τ = (match τ with | none => true | some t => decide (d - t ≤ thr)) := by
+  cases τ <;> rfl
+
 /-- **the two searches coincide** for a non-negative distance, when the target is the item at position `q` -/
 theorem vpSearch_eq (distf : List K → List K → K) (hd : ∀ a b, 0 ≤ distf a b) (items : Nat → List K) (q k : Nat) :
     ∀ (t : VpNode K) (s : SearchState K), NonNeg s →
@@ -190,61 +203,32 @@ theorem vpSearch_eq (distf : List K → List K → K) (hd : ∀ a b, 0 ≤ distf
   | node idx thr l r ihl ihr =>
     intro s hs
     rw [vpSearch_node]
-    have h1 := admit_nonneg k idx _ (hd (items idx) (items q)) s hs
-    have ha := admit_eq (cbOf distf items) k idx (distf (items idx) (items q)) s
-    simp only [toTree, VpTree.search, toTree_isNil, cbOf, posDist] at *
+    have h1 := admit_nonneg k idx (distf (items idx) (items q)) (hd _ _) s hs
+    have ha := admit_eq k idx (distf (items idx) (items q)) s
+    have e1 : (cbOf distf items).dist idx q = distf (items idx) (items q) := rfl
+    simp only [toTree, VpTree.search, toTree_isNil, e1, ← ha]
     by_cases hn : (l.isNil && r.isNil) = true
-    · simp only [hn, if_true]; exact ha
+    · simp only [hn, if_true]
     · simp only [hn, Bool.false_eq_true, if_false]
       by_cases hlt : distf (items idx) (items q) < thr
       · simp only [hlt, if_true]
-        -- C02's first guard is true
-        have hL : VpTree.leftTest (distf (items idx) (items q)) thr (admit k idx (distf (items idx) (items q)) s).tau
-            = true := by
-          cases hτ : (admit k idx (distf (items idx) (items q)) s).tau with
-          | none => rfl
-          | some t =>
-            have ht := h1.2 t hτ
-            simp only [VpTree.leftTest, decide_eq_true_eq]
-            linarith
-        rw [← ha]
-        have hLs : VpTree.leftTest (distf (items idx) (items q)) thr
-            (toS (admit k idx (distf (items idx) (items q)) s)).tau = true := hL
-        simp only [hLs, if_true]
-        rw [← ihl _ h1]
+        have hL := leftTest_true_of (distf (items idx) (items q)) thr
+          (toS (admit k idx (distf (items idx) (items q)) s)).tau hlt h1.2
+        rw [hL]
+        simp only [if_true]
+        rw [← ihl _ h1, rightTest_eq, apply_ite toS]
         have h2 := vpSearch_nonneg distf hd items (items q) k l _ h1
-        cases hτ2 : (vpSearch distf items (items q) k l (admit k idx (distf (items idx) (items q)) s)).tau with
-        | none =>
-          simp only [toS, hτ2, VpTree.rightTest, if_true]
-          exact ihr _ h2
-        | some t2 =>
-          simp only [toS, hτ2, VpTree.rightTest]
-          by_cases hc : thr ≤ distf (items idx) (items q) + t2
-          · simp only [hc, decide_true, if_true]; exact ihr _ h2
-          · simp only [hc, decide_false, Bool.false_eq_true, if_false]
+        rw [ihr _ h2]
+        rfl
       · simp only [hlt, if_false]
-        have hge : thr ≤ distf (items idx) (items q) := not_lt.mp hlt
-        have hR : VpTree.rightTest (distf (items idx) (items q)) thr
-            (toS (admit k idx (distf (items idx) (items q)) s)).tau = true := by
-          cases hτ : (admit k idx (distf (items idx) (items q)) s).tau with
-          | none => simp [toS, hτ, VpTree.rightTest]
-          | some t =>
-            have ht := h1.2 t hτ
-            simp only [toS, hτ, VpTree.rightTest, decide_eq_true_eq]
-            linarith
-        rw [← ha]
-        simp only [hR, if_true]
-        rw [← ihr _ h1]
+        have hR := rightTest_true_of (distf (items idx) (items q)) thr
+          (toS (admit k idx (distf (items idx) (items q)) s)).tau (not_lt.mp hlt) h1.2
+        rw [hR]
+        simp only [if_true]
+        rw [← ihr _ h1, leftTest_eq, apply_ite toS]
         have h2 := vpSearch_nonneg distf hd items (items q) k r _ h1
-        cases hτ2 : (vpSearch distf items (items q) k r (admit k idx (distf (items idx) (items q)) s)).tau with
-        | none =>
-          simp only [toS, hτ2, VpTree.leftTest, if_true]
-          exact ihl _ h2
-        | some t2 =>
-          simp only [toS, hτ2, VpTree.leftTest]
-          by_cases hc : distf (items idx) (items q) - t2 ≤ thr
-          · simp only [hc, decide_true, if_true]; exact ihl _ h2
-          · simp only [hc, decide_false, Bool.false_eq_true, if_false]
+        rw [ihl _ h2]
+        rfl
 
 /-- **exactness of `tsne::VpTree::search`**: for every (pseudo-)metric on the items, every tree with the ball invariant
     (what `buildFromPoints` produces, checked on every dumped tree by the correspondence run), every `1 ≤ k ≤ N` and
